@@ -308,11 +308,22 @@ def _align_pct(a):
     return ALIGN_PCT[a] if isinstance(a, str) else a
 
 
-def _axis(avail, align, kind, amt, own, mn, L, R, clip, l, r, child, nat=None, flex=False):
-    """nat: the natural extent of a packed / fixed child (taken from the probe's configuration, NOT from what it answered when the
+def _obsolete(align, L, R, names):
+    """The obsolete spelling of a fixed margin: align=('fixed left', n) means align='left', left=n (likewise right / top / bottom).
+    Returns (align argument, left argument, right argument, 1 when the obsolete spelling was used)."""
+    if align in ("left", "top"):
+        return (names[0], L), 0, R, 1
+    if align in ("right", "bottom"):
+        return (names[1], R), L, 0, 1
+    return _align_arg(align), L, R, 0
+
+
+def _axis(avail, align, kind, amt, own, mn, L, R, clip, l, r, child, nat=None, flex=False, trim=False):
+    """trim: the decoration does not clip through negative margins, it lets the child overflow and trims its canvas (Filler);
+    nat: the natural extent of a packed / fixed child (taken from the probe's configuration, NOT from what it answered when the
     decoration asked it with a size of the decoration's choosing); flex: a packed child that shrinks to what it is offered."""
     return {"c": {"avail": avail, "align": _align_pct(align), "kind": kind, "amt": amt, "own": own, "nat": own if nat is None else nat,
-                  "flex": bool(flex), "min": -1 if mn is None else mn, "L": L, "R": R, "clip": bool(clip)}, "l": l, "r": r, "child": child}
+                  "flex": bool(flex), "min": -1 if mn is None else mn, "L": L, "R": R, "clip": bool(clip), "trim": bool(trim)}, "l": l, "r": r, "child": child}
 
 
 def pad_event(p):
@@ -330,14 +341,17 @@ def pad_event(p):
         child, width = (_PROBES["text"] if p.get("child") == "text" else FixedFlow)(log, 0, amt), "pack"
     else:
         child, width = Fixed(log, 0, amt), "clip"
-    e = {"t": "pad", "widget": "padding", "exc": "", "rexc": "", "sizes": [], "offer": -1, "fixed": 0,
+    e = {"t": "pad", "widget": "padding", "exc": "", "rexc": "", "sizes": [], "offer": -1, "fixed": 0, "obs": 0,
          "text_child": int(kind == "pack" and p.get("child") == "text")}
     size = (p["avail"], 2) if p.get("box") and kind in ("given", "relative") else (p["avail"],)
     l = r = 0
     own = amt
     avail = p["avail"]
     try:
-        w = urwid.Padding(child, _align_arg(p["align"]), width, p["min"], p["L"], p["R"])
+        al, La, Ra = _align_arg(p["align"]), p["L"], p["R"]
+        if p.get("obs"):
+            al, La, Ra, e["obs"] = _obsolete(p["align"], p["L"], p["R"], ("fixed left", "fixed right"))
+        w = urwid.Padding(child, al, width, p["min"], La, Ra)
         if p.get("fixed") and kind in ("given", "pack"):
             size = ()
             avail = w.pack(size, True)[0]      # the columns a fixed Padding claims for itself
@@ -381,11 +395,14 @@ def fill_event(p):
         child, height = Box(log, 0), ("relative", amt)
     else:
         child, height = Box(log, 0, nrows=amt), "pack"
-    e = {"t": "pad", "widget": "filler", "exc": "", "rexc": "", "sizes": []}
+    e = {"t": "pad", "widget": "filler", "exc": "", "rexc": "", "sizes": [], "obs": 0}
     t = b = 0
     avail = p["avail"]
     try:
-        w = urwid.Filler(child, _align_arg(p["align"]), height, p["min"], p["L"], p["R"])
+        al, La, Ra = _align_arg(p["align"]), p["L"], p["R"]
+        if p.get("obs"):
+            al, La, Ra, e["obs"] = _obsolete(p["align"], p["L"], p["R"], ("fixed top", "fixed bottom"))
+        w = urwid.Filler(child, al, height, p["min"], La, Ra)
         if p.get("flow") and kind in ("given", "pack"):
             size = (3,)
             avail = w.rows(size, True)      # the space a flow Filler claims for itself
@@ -406,7 +423,8 @@ def fill_event(p):
         for _idx, sz, (_cols, rows) in log:
             e["sizes"].append(list(sz))
             got = rows
-    e.update(_axis(avail, p["align"], kind, amt, amt, p["min"] if kind == "relative" else None, p["L"], p["R"], kind == "pack", t, b, got))
+    e.update(_axis(avail, p["align"], kind, amt, amt, p["min"] if kind == "relative" else None, p["L"], p["R"], kind == "pack", t, b, got,
+                   trim=kind == "pack"))
     return e
 
 
@@ -429,14 +447,18 @@ def overlay_event(p):
         else:
             top = Box(log, 0)
             height = p["hamt"] if hkind == "given" else ("relative", p["hamt"])
-    e = {"t": "overlay", "exc": "", "rexc": "", "sizes": [], "rows_dep": 0}
+    e = {"t": "overlay", "exc": "", "rexc": "", "sizes": [], "rows_dep": 0, "obs": 0}
     W, H = p["W"], p["H"]
     l = r = t = b = 0
     cw, chh = W, H
     ownw, ownh = p["wamt"], p["hamt"]
     try:
-        w = urwid.Overlay(top, urwid.SolidFill("."), _align_arg(p["align"]), width, _align_arg(p["valign"]), height,
-                          p["minw"], p["minh"], p["L"], p["R"], p["T"], p["B"])
+        al, La, Ra, val, Ta, Ba = _align_arg(p["align"]), p["L"], p["R"], _align_arg(p["valign"]), p["T"], p["B"]
+        if p.get("obs"):
+            al, La, Ra, o1 = _obsolete(p["align"], p["L"], p["R"], ("fixed left", "fixed right"))
+            val, Ta, Ba, o2 = _obsolete(p["valign"], p["T"], p["B"], ("fixed top", "fixed bottom"))
+            e["obs"] = o1 + o2
+        w = urwid.Overlay(top, urwid.SolidFill("."), al, width, val, height, p["minw"], p["minh"], La, Ra, Ta, Ba)
         l, r, t, b = w.calculate_padding_filler((W, H), True)
         (l, r, t, b), bad = _ints([l, r, t, b])
         if bad:
@@ -630,6 +652,13 @@ def build_traces(chk):
                 if kind in ("given", "pack") and mn is None:
                     yield (single_trace("padding", [dict(kind=kind, amt=amt, min=mn, L=L, R=R, align=al, avail=0, fixed=True,
                                                          child="text" if j % 2 else None) for al in aligns]))
+                # the obsolete spellings ('fixed left', n) / ('fixed right', n) / ('fixed top', n) / ('fixed bottom', n): the same
+                # configuration written differently, judged against the same record
+                yield (single_trace("padding", [dict(kind=kind, amt=amt, min=mn, L=L, R=R, align=al, avail=av, obs=True)
+                                                for al in ("left", "right") for av in list(pavs)[:: (2 if quick else 1)]]))
+                if kind != "clip":
+                    yield (single_trace("filler", [dict(kind=kind, amt=amt, min=mn, L=L, R=R, align=al, avail=av, obs=True)
+                                                   for al in ("top", "bottom") for av in list(pavs)[:: (2 if quick else 1)]]))
                 if kind != "clip":
                     valigns = [ALIGNS_V[(j + k) % len(ALIGNS_V)] for k in ((1, 5, 8) if quick else (0, 1, 3, 5, 6, 8))]
                     yield (single_trace("filler", [dict(kind=kind, amt=amt, min=mn, L=L, R=R, align=al, avail=av, flow=(j + av) % 7 == 0)
@@ -649,6 +678,8 @@ def build_traces(chk):
                 avail = room + L + R
                 base.update(L=L, R=R, avail=avail, amt=rng.randint(room + 1, avail + (2 if rng.random() < 0.2 else 0)),
                             min=rng.choice([None, None, None, rng.randint(1, avail + 1)]))
+            if rng.random() < 0.15:
+                base.update(obs=True, align=rng.choice(["left", "right"]))
             ps.append(dict(base, box=rng.random() < 0.3, child="text" if kind == "pack" and rng.random() < 0.4 else None,
                            fixed=kind in ("given", "pack") and base["min"] is None and rng.random() < 0.08))
             if kind != "clip":
@@ -673,6 +704,22 @@ def build_traces(chk):
                     val = ALIGNS_V[(k // 2) % len(ALIGNS_V)]
                     ovs.append(dict(W=W, H=H, align=al, wkind=wk, wamt=wa, minw=mnw, L=L, R=R, valign=val, hkind=hk, hamt=ha, minh=mnh,
                                     T=T, B=B, area=(6 if k % 2 else 0) if hk == "pack" else 0))
+    # a fixed top widget (width='pack', height='pack') wider / taller than the space, with and without fixed margins, every alignment
+    for (wa, ha) in ((5, 1), (3, 4), (7, 5)) if quick else ((5, 1), (3, 4), (7, 5), (12, 2), (2, 9)):
+        for (W, H) in ((8, 3), (4, 3), (6, 2), (2, 1)) if quick else [(W, H) for W in (1, 2, 4, 6, 8) for H in (1, 2, 3, 6)]:
+            for (L, R, T, B) in ((0, 0, 0, 0), (2, 0, 0, 1), (0, 1, 1, 0), (1, 1, 1, 1)):
+                for al, val in zip(ALIGNS_H, ALIGNS_V):
+                    ovs.append(dict(W=W, H=H, align=al, wkind="pack", wamt=wa, minw=None, L=L, R=R, valign=val, hkind="pack", hamt=ha,
+                                    minh=None, T=T, B=B, area=0))
+    # the obsolete ('fixed left' | 'fixed right' | 'fixed top' | 'fixed bottom', n) spellings of align / valign
+    for (wk, wa) in wspecs:
+        for (hk, ha) in hspecs[:: (2 if quick else 1)]:
+            for (W, H) in ((6, 4), (9, 7), (3, 2)):
+                for al in ("left", "right"):
+                    for val in ("top", "bottom"):
+                        k += 1
+                        ovs.append(dict(W=W, H=H, align=al, wkind=wk, wamt=wa, minw=None, L=1 + k % 2, R=k % 3, valign=val, hkind=hk, hamt=ha,
+                                        minh=None, T=k % 2, B=1 + k % 2, area=0, obs=True))
     for _ in range(600 if quick else 30000):
         wk = rng.choice(["given", "relative", "pack"])
         hk = rng.choice(["given", "relative", "pack"])
@@ -682,6 +729,8 @@ def build_traces(chk):
                         valign=rng.choice(["top", "middle", "bottom", rng.randint(0, 100)]), hkind=hk,
                         hamt=rng.randint(0, 110) if hk == "relative" else rng.randint(1, 12), minh=rng.choice([None, rng.randint(1, 6)]),
                         T=rng.randint(0, 3), B=rng.randint(0, 3), area=rng.choice([0, 0, rng.randint(2, 40)])))
+        if rng.random() < 0.1:
+            ovs[-1].update(obs=True, align=rng.choice(["left", "right"]), valign=rng.choice(["top", "bottom"]))
     for a in range(0, len(ovs), 40):
         yield (single_trace("overlay", ovs[a:a + 40]))
 
@@ -780,7 +829,10 @@ NEEDED = ("columns.trailing_columns_dropped", "columns.left_columns_dropped", "c
           "padding.pack.natural_exceeds_room_beside_margins", "padding.pack.natural_exceeds_room_min_size_intervenes",
           "padding.clip.natural_exceeds_room_beside_margins", "filler.pack.natural_exceeds_room_beside_margins",
           "overlay.clip.natural_exceeds_room_beside_margins", "overlay.pack.natural_exceeds_room_beside_margins",
-          "padding.pack.text_child", "padding.fixed_sizing")
+          "padding.pack.text_child", "padding.fixed_sizing",
+          "padding.obsolete_fixed_left", "padding.obsolete_fixed_right", "filler.obsolete_fixed_top", "filler.obsolete_fixed_bottom",
+          "filler.obsolete_fixed_bottom.spare_rows", "overlay.obsolete_fixed_margin_spelling", "overlay.fixed_top_wider_than_space",
+          "overlay.fixed_top_taller_than_space", "padding.clip.wider_than_space", "filler.pack.taller_than_space")
 
 
 def _beside_margins(c, widget, cc):
@@ -846,12 +898,25 @@ def _coverage(counts, nontriv, traces):
                     c("padding.fixed_sizing")
                 if e["widget"] == "padding" and e.get("text_child"):
                     c("padding.pack.text_child")
+                if e.get("obs"):
+                    near = cc["align"] == 0
+                    c(f"{e['widget']}.obsolete_fixed_" + {"padding": ("right", "left"), "filler": ("bottom", "top")}[e["widget"]][near])
+                    if not near and fits and cc["avail"] - cc["L"] - cc["R"] - e["child"] > 0:
+                        c(f"{e['widget']}.obsolete_fixed_" + ("right" if e["widget"] == "padding" else "bottom") + ".spare_rows")
+                if cc["clip"] and e["child"] > cc["avail"]:
+                    c("padding.clip.wider_than_space" if e["widget"] == "padding" else "filler.pack.taller_than_space")
             elif t == "overlay":
                 c(f"overlay.{e['h']['c']['kind']}x{e['v']['c']['kind']}")
                 _beside_margins(c, "overlay", e["h"]["c"])
                 _beside_margins(c, "overlay", e["v"]["c"])
                 if e["rows_dep"]:
                     c("overlay.flow_rows_depend_on_width")
+                if e.get("obs"):
+                    c("overlay.obsolete_fixed_margin_spelling")
+                if e["h"]["c"]["clip"] and e["h"]["child"] > e["h"]["c"]["avail"]:
+                    c("overlay.fixed_top_wider_than_space")
+                if e["h"]["c"]["clip"] and e["v"]["child"] > e["v"]["c"]["avail"]:
+                    c("overlay.fixed_top_taller_than_space")
                 nontriv.add(hash(("o", json.dumps(e["h"]["c"]), json.dumps(e["v"]["c"]))))
             elif t == "grid":
                 c("grid.multi_row" if len(set(e["ys"])) > 1 else "grid.single_row")
